@@ -302,6 +302,9 @@ func substitute(steps []map[string]any, r *rand.Rand) []map[string]any {
 type run struct {
 	w      *sim.World
 	admin  *sim.Client
+	storms []*sim.Client // the administrators of the concurrent rounds
+	rng    *rand.Rand
+	round  int
 	dir    string
 	logins [][]byte // the logins of the script (capped), probed after every step
 	pws    [][]byte // the passwords of the script (clear, capped)
@@ -338,6 +341,14 @@ func (r *run) universe(steps []map[string]any) {
 		}
 	}
 	for _, st := range steps {
+		if st["op"] == "storm" {
+			for _, l := range stormLogins(st) {
+				addUniq(&r.logins, l, 4)
+			}
+			for _, p := range stormPool {
+				addUniq(&r.pws, p, 5)
+			}
+		}
 		scan(st)
 		for _, s := range subsOf(st) {
 			scan(s)
@@ -362,10 +373,21 @@ func (r *run) dialAdmin() error {
 // one connection are handled in order and the outbox pump is in order, so the reply - if the handler produces
 // one - has arrived when the keep-alive reply has).  cls: ok | err | none | closed.
 func (r *run) request(typ int, fields ...sim.F) (cls string, rep sim.Tx, err error) {
-	id := r.admin.Send(typ, fields...)
-	kid := r.admin.Send(sim.TKeepAlive)
-	_, werr := r.admin.WaitReply(kid, 15*time.Second)
-	frames := r.admin.Drain()
+	cls, rep, err = requestOn(r.admin, typ, fields...)
+	if cls == "closed" && err == nil {
+		// the handler died (a panic is recovered per connection) - the administrator reconnects
+		r.admin.WaitServerDone(5 * time.Second)
+		err = r.dialAdmin()
+	}
+	return cls, rep, err
+}
+
+// requestOn: see request; usable from several goroutines on different connections.
+func requestOn(c *sim.Client, typ int, fields ...sim.F) (cls string, rep sim.Tx, err error) {
+	id := c.Send(typ, fields...)
+	kid := c.Send(sim.TKeepAlive)
+	_, werr := c.WaitReply(kid, 15*time.Second)
+	frames := c.Drain()
 	for _, t := range frames {
 		if t.IsReply == 1 && t.ID == id {
 			rep = t
@@ -377,12 +399,7 @@ func (r *run) request(typ int, fields ...sim.F) (cls string, rep sim.Tx, err err
 		}
 	}
 	if werr == sim.ErrClosed {
-		// the handler died (a panic is recovered per connection) - the administrator reconnects
-		r.admin.WaitServerDone(5 * time.Second)
-		if cls == "" {
-			cls = "closed"
-		}
-		return cls, rep, r.dialAdmin()
+		return "closed", rep, nil
 	}
 	if werr != nil {
 		return "", rep, fmt.Errorf("settling transaction %d: %w", typ, werr)
@@ -489,6 +506,8 @@ func (r *run) step(st map[string]any, ev map[string]any) error {
 		ok, err := r.tryLogin(bytesOf(st["login"]), bytesOf(st["pw"]))
 		ev["reply"] = map[bool]string{true: "ok", false: "err"}[ok]
 		return err
+	case "storm":
+		return r.storm(st, ev)
 	case "restart":
 		am, err := verifexport.NewYAMLAccountManager(r.dir)
 		if err != nil {
@@ -502,6 +521,111 @@ func (r *run) step(st map[string]any, ev map[string]any) error {
 		return nil
 	}
 	return fmt.Errorf("unknown op %q", op)
+}
+
+var stormPool = [][]byte{{}, []byte("p"), []byte("q"), []byte("r")}
+
+func stormLogins(st map[string]any) [][]byte {
+	n := 3
+	if v, ok := st["logins"].(float64); ok && v >= 1 && v <= 4 {
+		n = int(v)
+	}
+	out := [][]byte{}
+	for i := 0; i < n; i++ {
+		out = append(out, []byte{byte('a' + i)})
+	}
+	return out
+}
+
+// storm: one concurrent round.  K administrator connections each send one request (drawn from the run's seeded
+// generator: set-user / update-user put / new-user / delete-user / update-user delete, on a handful of logins, with
+// a unique name per request and a password from a small pool) at the same moment (start barrier); the round ends
+// when every request is settled.  The requests really sent and how each was answered are logged; the views follow.
+func (r *run) storm(st map[string]any, ev map[string]any) error {
+	k := 6
+	if v, ok := st["admins"].(float64); ok && v >= 2 && v <= 32 {
+		k = int(v)
+	}
+	for len(r.storms) < k {
+		c := r.w.Dial("")
+		rep, err := c.Login(sim.LoginOpts{Login: adminLogin, Password: adminPw, Name: fmt.Sprintf("s%d", len(r.storms))})
+		if err != nil || rep.Err != 0 {
+			return fmt.Errorf("storm administrator login: %v", err)
+		}
+		r.storms = append(r.storms, c)
+	}
+	logins := stormLogins(st)
+	r.round++
+	type req struct {
+		rec map[string]any
+		typ int
+		f   []sim.F
+	}
+	reqs := make([]req, k)
+	kinds := []string{"setuser", "setuser", "setuser", "setuser", "put", "put", "newuser", "newuser", "deluser", "del"}
+	// in half of the rounds everybody aims at one login
+	focus := logins[r.rng.Intn(len(logins))]
+	focused := r.rng.Intn(2) == 0
+	for i := range reqs {
+		kind := kinds[r.rng.Intn(len(kinds))]
+		lg := logins[r.rng.Intn(len(logins))]
+		if focused {
+			lg = focus
+		}
+		pw := stormPool[r.rng.Intn(len(stormPool))]
+		has := len(pw) > 0 || kind == "put"
+		acc := []int{}
+		if r.rng.Intn(2) == 0 {
+			acc = []int{2, 9}
+		}
+		rec := map[string]any{"admin": i + 1, "kind": kind, "login": sim.Ints(lg), "name": sim.Ints([]byte(fmt.Sprintf("r%da%d", r.round, i+1))),
+			"pw": map[string]any{"has": has, "v": sim.Ints(pw)}, "acc": acc}
+		arg := map[string]any{"login": lg, "name": []byte(fmt.Sprintf("r%da%d", r.round, i+1)), "pw": map[string]any{"has": has, "v": pw}, "acc": acc}
+		q := req{rec: rec}
+		switch kind {
+		case "setuser":
+			q.typ, q.f = sim.TSetUser, acctFields(arg)
+		case "newuser":
+			q.typ, q.f = sim.TNewUser, acctFields(arg)
+		case "put":
+			q.typ, q.f = sim.TUpdateUser, []sim.F{sim.Fld(sim.FData, nested(acctFields(arg)))}
+		case "deluser":
+			q.typ, q.f = sim.TDeleteUser, []sim.F{sim.Fld(sim.FUserLogin, sim.Obfuscate(lg))}
+			rec["name"], rec["pw"], rec["acc"] = []int{}, map[string]any{"has": false, "v": []int{}}, []int{}
+		case "del":
+			q.typ, q.f = sim.TUpdateUser, []sim.F{sim.Fld(sim.FData, nested([]sim.F{sim.Fld(sim.FData, sim.Obfuscate(lg))}))}
+			rec["name"], rec["pw"], rec["acc"] = []int{}, map[string]any{"has": false, "v": []int{}}, []int{}
+		}
+		reqs[i] = q
+	}
+	start := make(chan struct{})
+	var wg sync.WaitGroup
+	errs := make([]error, k)
+	for i := range reqs {
+		wg.Add(1)
+		go func(i int) {
+			defer wg.Done()
+			<-start
+			cls, _, err := requestOn(r.storms[i], reqs[i].typ, reqs[i].f...)
+			reqs[i].rec["reply"] = cls
+			errs[i] = err
+		}(i)
+	}
+	close(start)
+	wg.Wait()
+	out := []map[string]any{}
+	for i := range reqs {
+		if errs[i] != nil {
+			return fmt.Errorf("storm request %d: %w", i, errs[i])
+		}
+		if reqs[i].rec["reply"] == "closed" {
+			return fmt.Errorf("storm connection %d was closed by the server", i)
+		}
+		out = append(out, reqs[i].rec)
+	}
+	ev["reqs"] = out
+	ev["reply"] = "ok"
+	return nil
 }
 
 // pwKind classifies a password string shown or stored by the server: a bcrypt hash, one of the script's
@@ -811,7 +935,8 @@ func runScript(runID int, steps []map[string]any, big bool) (evs []map[string]an
 		return nil, err
 	}
 	defer w.Close()
-	r := &run{w: w, dir: filepath.Join(w.Config, "Users"), vcache: map[string]bool{}}
+	seed, _ := strconv.ParseInt(os.Getenv("VERIF_SEED"), 10, 64)
+	r := &run{w: w, dir: filepath.Join(w.Config, "Users"), vcache: map[string]bool{}, rng: rand.New(rand.NewSource(seed*7919 + int64(runID)))}
 	r.universe(steps)
 	if err := r.dialAdmin(); err != nil {
 		return nil, err
